@@ -25,6 +25,7 @@ func init() {
 		Level: "exploration",
 		Rule: "three scenario families, each run in a plain and in a race-detector build: W1 = client and server Conn over a duplex in-memory transport (random read chunking, writes that dawdle inside the transport), per side 1 reader with default handlers, 1 writer, 0-4 WriteControl callers, Close at a drawn moment or never; the writer sets far-future or zero write deadlines and a monitor over the transport log compares the deadline armed at every Write of an own frame with the one in force for that frame; " +
 			"W2 = the writer is held inside the transport's Write by a gate while WriteControl callers with 5-40 ms deadlines arrive; W3 = one PreparedMessage and one write-buffer pool shared by 8-32 connections on as many goroutines; " +
+			"W4 = the process-wide flate pools after failed compressed writers: 1-4 connections whose transport fails in the middle of a large compressed message, the application closing the failed writer one to three times (explicit Close plus deferred Close), then 4-12 healthy compressing connections at the same level with a writer open at overlapping times, every transport decoded and compared with what its own connection sent; " +
 			"distinct = interleaving signature (which kinds of calls overlapped, control frame between fragments, who waited behind whom); non-trivial = at least two write-side calls overlapped in time",
 		Variants: func(tier string) []string { return []string{"plain", "race"} },
 		Cases: func(tier, variant string) int {
@@ -38,7 +39,7 @@ func init() {
 			return n
 		},
 		Run:          runC11,
-		Required:     []string{"w1_runs", "w2_runs", "w3_runs", "frames_decoded", "writecontrol_timeouts_observed", "histories_linearizable", "deadline_pairs_checked", "closes_while_the_writer_is_stalled"},
+		Required:     []string{"w1_runs", "w2_runs", "w3_runs", "w4_runs", "w4_failed_compressed_writers_closed_again", "frames_decoded", "writecontrol_timeouts_observed", "histories_linearizable", "deadline_pairs_checked", "closes_while_the_writer_is_stalled"},
 		CaseTimeoutS: 300,
 		MaxWorkers:   8,
 		Assumptions: []string{
@@ -49,6 +50,10 @@ func init() {
 }
 
 func runC11(ctx *core.Ctx, out *core.Out) {
+	if ctx.Idx%20 == 19 {
+		c11W4(ctx, out)
+		return
+	}
 	switch ctx.Idx % 5 {
 	case 0, 1, 2:
 		c11W1(ctx, out)
@@ -659,5 +664,134 @@ func c11W3(ctx *core.Ctx, out *core.Out) {
 	out.Eval(fmt.Sprintf("W3 n=%d wb=%d rounds=%d", n, wb, rounds), true)
 	if ctx.Idx%204 == 4 {
 		out.Sample(map[string]interface{}{"scenario": "W3", "connections": n, "rounds": rounds, "write_buffer": wb})
+	}
+}
+
+// c11W4: state shared between connections through the process-wide flate pools. A compressed
+// message writer that failed (transport fault while a frame was flushed from inside Write) is
+// closed again by the application (explicit Close + deferred Close is the ordinary Go idiom);
+// afterwards healthy connections at the same level keep a writer open at overlapping times.
+// Whatever the failed writers did, every healthy connection's transport must carry exactly its
+// own messages.
+func c11W4(ctx *core.Ctx, out *core.Out) {
+	r := ctx.R
+	level := []int{1, 2, 6, 9, -2, -1}[r.Intn(6)]
+	nv := r.Range(1, 4)
+	extra := 0
+	for v := 0; v < nv; v++ {
+		cfg := Cfg{Server: r.Bool(), RB: 256, WB: []int{128, 512, 4096}[r.Intn(3)], Comp: true}
+		nc := xport.New(nil)
+		nc.Counted = func(k xport.OpKind) bool { return k == xport.OpWrite }
+		nc.FaultAt = map[int]xport.FaultKind{r.Range(0, 2): []xport.FaultKind{xport.FaultErr, xport.FaultShort, xport.FaultTimeout, xport.FaultEOF}[r.Intn(4)]}
+		nc.Sticky = true
+		c := newConn(nc, cfg, nil, v)
+		c.EnableWriteCompression(true)
+		if err := c.SetCompressionLevel(level); err != nil {
+			out.Violate("C11:w4-setup", fmt.Sprintf("SetCompressionLevel(%d): %v", level, err), nil)
+			return
+		}
+		w, err := c.NextWriter(r.Range(1, 2))
+		if err != nil {
+			out.Violate("C11:w4-setup", fmt.Sprintf("NextWriter on a fresh connection: %v", err), nil)
+			return
+		}
+		big := r.Bytes(r.Range(20000, 60000)) // incompressible: frames are flushed from inside Write
+		_, werr := w.Write(big)
+		closes := r.Range(1, 3)
+		for k := 0; k < closes; k++ {
+			cerr := w.Close()
+			if k == 0 && werr == nil && cerr == nil && nc.FaultsHit > 0 {
+				out.Violate("C11:w4-failed-writer-reports-success", "the transport failed during the message and neither Write nor Close reported it", nil)
+				return
+			}
+		}
+		if closes > 1 {
+			extra++
+		}
+	}
+	out.Count("w4_failed_compressed_writers_closed_again", int64(extra))
+	n := r.Range(4, 12)
+	type one struct {
+		cfg  Cfg
+		nc   *xport.Conn
+		c    *ws.Conn
+		sent [][]byte
+		err  error
+	}
+	conns := make([]*one, n)
+	for i := range conns {
+		cfg := Cfg{Server: r.Bool(), RB: 256, WB: []int{128, 512, 4096}[r.Intn(3)], Comp: true}
+		nc := xport.New(nil)
+		o := &one{cfg: cfg, nc: nc, c: newConn(nc, cfg, nil, 100+i)}
+		o.c.EnableWriteCompression(true)
+		o.c.SetCompressionLevel(level)
+		for m := r.Range(1, 3); m > 0; m-- {
+			p := r.Payload(r.Intn(gen.NPayloadClasses), []int{10, 300, 5000, 20000}[r.Intn(4)])
+			o.sent = append(o.sent, append([]byte{byte(i), byte(m)}, p...))
+		}
+		conns[i] = o
+	}
+	// every connection opens its writer, waits until all have one open, then writes in pieces
+	var wg, opened sync.WaitGroup
+	opened.Add(n)
+	for _, o := range conns {
+		wg.Add(1)
+		go func(o *one) {
+			defer wg.Done()
+			first := true
+			for _, p := range o.sent {
+				w, err := o.c.NextWriter(2)
+				if first {
+					first = false
+					opened.Done()
+					opened.Wait()
+				}
+				if err != nil {
+					o.err = err
+					return
+				}
+				for off := 0; off < len(p); {
+					e := off + 1 + len(p)/3
+					if e > len(p) {
+						e = len(p)
+					}
+					if _, err := w.Write(p[off:e]); err != nil {
+						o.err = err
+						return
+					}
+					off = e
+					runtime.Gosched()
+				}
+				if err := w.Close(); err != nil {
+					o.err = err
+					return
+				}
+			}
+		}(o)
+	}
+	wg.Wait()
+	out.Count("w4_runs", 1)
+	for i, o := range conns {
+		if o.err != nil {
+			out.Violate("C11:w4-healthy-connection-fails", fmt.Sprintf("connection %d of %d (level %d) after %d failed compressed writers elsewhere: %v", i, n, level, nv, o.err), nil)
+			return
+		}
+		frames, rest, derr := wire.Decode(o.nc.Written())
+		out.Count("frames_decoded", int64(len(frames)))
+		msgs, open, v := wire.Validate(frames, !o.cfg.Server, true)
+		if derr != nil || len(rest) > 0 || v != nil || open != nil || len(msgs) != len(o.sent) {
+			out.Violate("C11:w4-shared-flate-state-corrupts-stream", fmt.Sprintf("connection %d of %d: decode err=%v validate=%v messages=%d want %d", i, n, derr, v, len(msgs), len(o.sent)), map[string]interface{}{"frames": framesDesc(frames, 12)})
+			return
+		}
+		for k := range msgs {
+			if !bytes.Equal(msgs[k].Data, o.sent[k]) {
+				out.Violate("C11:w4-shared-flate-state-corrupts-stream", fmt.Sprintf("connection %d of %d, message %d: payload differs from what this connection sent (first difference at %d)", i, n, k, diffAt(msgs[k].Data, o.sent[k])), nil)
+				return
+			}
+		}
+	}
+	out.Eval(fmt.Sprintf("W4 level=%d failed=%d healthy=%d", level, nv, n), true)
+	if ctx.Idx%400 == 19 {
+		out.Sample(map[string]interface{}{"scenario": "W4", "level": level, "failed_writers": nv, "closed_again": extra, "healthy_connections": n})
 	}
 }
